@@ -58,6 +58,8 @@ def opValidate : Handler := fun j => do
     match r with
     | .ok () => return Json.mkObj [("ok", Json.null), ("state", pairsJson st)]
     | .error e => return Json.mkObj [("error", errName e), ("state", pairsJson st)]
+  | "engine_option" =>
+    return resJson unitJson (engineSetupOption (← getBool (← field j "graph")) (← getStr (← field j "v")))
   | "policy" => return resJson unitJson (setSamplingPolicy (← getStr (← field j "v")))
   | "mode" => return resJson unitJson (setInitStateProcessing (← getStr (← field j "v")))
   | "grid_ctor" =>
